@@ -123,6 +123,18 @@ Theorem C17_round_trip_refines_spec :
 Proof. exact round_trip_refines_spec. Qed.
 Print Assumptions C17_round_trip_refines_spec.
 
+(* ... and so does the whole auth stack (first send, token request through the same transport,
+   re-send): result, end instant and the attempts of all three sends are those of spec_auth,
+   built from three uses of spec_send *)
+Theorem C17_auth_refines_spec :
+  forall p bd sc tb tsc,
+    wf_body bd -> replayable bd -> wf_body tb -> replayable tb ->
+    let a := auth_do_tok p None bd sc tb tsc in
+    (ak_res a, ak_time a, attempts (ak_first a), attempts (ak_token a), attempts (ak_second a))
+    = spec_auth p bd sc tb tsc.
+Proof. exact auth_do_tok_refines_spec. Qed.
+Print Assumptions C17_auth_refines_spec.
+
 (* --- bodies ---------------------------------------------------------------- *)
 
 (* on attempt i the registry receives exactly what it reads of the complete original
